@@ -1,4 +1,5 @@
 import PpciVerif.Proofs.Opt.Subst
+import PpciVerif.Model.Opt
 /-!
 # C02 — the optimizer preserves IR behaviour
 
@@ -52,7 +53,9 @@ theorem typing_invariant (ctx : Ctx)
     and the `replace_by` half of `ConstantFolder` do): if `m'` is `m` with operands replaced by operands that `checkSubst` can justify from
     the equations of dominating pure instructions of `m` (same binop on justified-equal operands; equal
     constants; integer constant expressions with equal value; and, when the module passes `tyCheck`,
-    `x := a + 0`, `x := 0 + a`, `x := a * 1` at integer types replaced by `a` — `RemoveAddZeroPass`),
+    `x := a + 0`, `x := 0 + a`, `x := a * 1` at integer types replaced by `a` — `RemoveAddZeroPass`), and
+    conditional jumps on two known integer constants replaced by the jump they take (the folding decision
+    of `CJumpPass`; its subsequent pruning of phi inputs / unreachable blocks is not covered),
     every defined behaviour is preserved. -/
 theorem subst_validator_sound (m m' : Module) (h : checkSubst m m' = true) (cfg : Config) :
     Preserves cfg m m' :=
@@ -63,6 +66,56 @@ theorem validators_compose (m m1 m2 : Module) (h1 : checkAlign m m1 = true) (h2 
     (cfg : Config) : Preserves cfg m m2 :=
   (checkAlign_sound h1 cfg).trans (checkSubst_sound h2 cfg)
 
+
+/-! ### the model passes: full statements (NOT shown) and what is proved about them
+
+`passPreserves p` is the full-strength statement of C02 for the model `p` of one pass: on every well-formed
+module the pass either raises or produces a module with the same behaviour.  None of these is proved for all
+modules; what is proved is the `_partial` version whose explicit decidable guard is "the verified checker
+accepts this output" — the guard is evaluated on every real pass output by harness/c02.py. -/
+
+def applyPass (p : Func → Model.Opt.R Func) (m : Module) : Option Module :=
+  match Model.Opt.runPass p m with
+  | .ok m' => some m'
+  | .error _ => none
+
+def passPreserves (p : Func → Model.Opt.R Func) : Prop :=
+  ∀ (cfg : Config) (m m' : Module), wfModule m = true → applyPass p m = some m' → Preserves cfg m m'
+
+/-- full statements, not shown (no theorem below proves them) -/
+def deleteUnused_full : Prop := passPreserves fun f => .ok (Model.Opt.deleteUnused f)
+def removeAddZero_full : Prop := passPreserves fun f => .ok (Model.Opt.removeAddZero f)
+def cse_full : Prop := passPreserves fun f => .ok (Model.Opt.cse f)
+def constFold_full : Prop := passPreserves Model.Opt.constFold
+def cjump_full : Prop := passPreserves Model.Opt.cjumpPass
+def loadAfterStore_full : Prop := passPreserves fun f => .ok (Model.Opt.loadAfterStore f)
+def clean_full : Prop := passPreserves Model.Opt.clean
+
+/-- DeleteUnused: proved under the guard `checkAlign m m'` (fails exactly when an unused `alloc`/`literal` is
+    removed or a name is defined twice) -/
+theorem deleteUnused_partial (cfg : Config) (m m' : Module)
+    (hp : applyPass (fun f => .ok (Model.Opt.deleteUnused f)) m = some m') (guard : checkAlign m m' = true) :
+    Preserves cfg m m' := by
+  have _ := hp; exact checkAlign_sound guard cfg
+
+/-- CSE and RemoveAddZero: proved under the guard `checkSubst m m'` (requires `ssaCheck` of every function;
+    for RemoveAddZero also `tyCheck`, and fails for pointer/float `+0`, `*1`) -/
+theorem cse_partial (cfg : Config) (m m' : Module)
+    (hp : applyPass (fun f => .ok (Model.Opt.cse f)) m = some m') (guard : checkSubst m m' = true) :
+    Preserves cfg m m' := by
+  have _ := hp; exact checkSubst_sound guard cfg
+
+theorem removeAddZero_partial (cfg : Config) (m m' : Module)
+    (hp : applyPass (fun f => .ok (Model.Opt.removeAddZero f)) m = some m') (guard : checkSubst m m' = true) :
+    Preserves cfg m m' := by
+  have _ := hp; exact checkSubst_sound guard cfg
+
+/-- ConstantFolder: proved under the guard "`m₁` = `m` + the new constants passes `checkAlign`, and
+    `checkSubst m₁ m'`" (fails for the chain rewrite `(y+c1)+c2` and pointer/float constants) -/
+theorem constFold_partial (cfg : Config) (m m1 m' : Module)
+    (hp : applyPass Model.Opt.constFold m = some m') (g1 : checkAlign m m1 = true) (g2 : checkSubst m1 m' = true) :
+    Preserves cfg m m' := by
+  have _ := hp; exact (checkAlign_sound g1 cfg).trans (checkSubst_sound g2 cfg)
 
 /-! ### non-vacuity: the checkers accept concrete, non-trivial rewrites (kernel-evaluated) -/
 
@@ -111,5 +164,30 @@ example : checkSubst
 example : checkSubst
     (mk [.binop "w" i32 .mul (.loc "x") (.loc "x"), .ret (.loc "w")])
     (mk [.binop "w" i32 .mul (.loc "x") (.loc "y"), .ret (.loc "w")]) = false := by decide
+
+
+/-- the model of DeleteUnused on the first example produces exactly the module the checker accepts
+    (hypotheses of `deleteUnused_partial` are satisfiable) -/
+example :
+    applyPass (fun f => .ok (Model.Opt.deleteUnused f))
+      (mk [.const "c" i32 (.int 5), .binop "u" i32 .add (.loc "x") (.loc "c"), .binop "r" i32 .mul (.loc "x") (.loc "y"), .ret (.loc "r")])
+      = some (mk [.const "c" i32 (.int 5), .binop "r" i32 .mul (.loc "x") (.loc "y"), .ret (.loc "r")]) ∧
+    checkAlign
+      (mk [.const "c" i32 (.int 5), .binop "u" i32 .add (.loc "x") (.loc "c"), .binop "r" i32 .mul (.loc "x") (.loc "y"), .ret (.loc "r")])
+      (mk [.const "c" i32 (.int 5), .binop "r" i32 .mul (.loc "x") (.loc "y"), .ret (.loc "r")]) = true := by decide
+
+/-- the models of CSE and RemoveAddZero produce the modules of the examples above -/
+example :
+    applyPass (fun f => .ok (Model.Opt.cse f))
+      (mk [.binop "a" i32 .add (.loc "x") (.loc "y"), .binop "b" i32 .add (.loc "x") (.loc "y"),
+           .binop "w" i32 .mul (.loc "b") (.loc "b"), .ret (.loc "w")])
+      = some (mk [.binop "a" i32 .add (.loc "x") (.loc "y"), .binop "b" i32 .add (.loc "x") (.loc "y"),
+           .binop "w" i32 .mul (.loc "a") (.loc "a"), .ret (.loc "w")]) := by decide
+
+example :
+    applyPass (fun f => .ok (Model.Opt.removeAddZero f))
+      (mk [.const "z" i32 (.int 0), .binop "a" i32 .add (.loc "x") (.loc "z"), .binop "w" i32 .mul (.loc "a") (.loc "a"), .ret (.loc "w")])
+      = some (mk [.const "z" i32 (.int 0), .binop "a" i32 .add (.loc "x") (.loc "z"), .binop "w" i32 .mul (.loc "x") (.loc "x"), .ret (.loc "w")])
+    := by decide
 
 end Props.C02
